@@ -308,6 +308,7 @@ class Interp:
         self.prim_used: set = set()
         self.prim_referenced: set = set()
         self.prim_usage: dict = {}
+        self.unravel_applied: list = []
         self.hooks: dict = {}  # primitive name -> override callable(interp, args, kwargs, site)
         self.method_hooks: dict = {}  # (class qualname, method) -> override
         self.call_stack: list = []
@@ -510,6 +511,8 @@ class Interp:
             return T.mk("mcall", (recv, name, *args), kwargs, origin=site)
         if f.op == "unravel_of" and len(args) == 1 and isinstance(args[0], T.Term) and args[0].op == "tree.ravel" and (args[0].args[0] is f.args[0] or T._freeze(args[0].args[0]) == T._freeze(f.args[0])):
             return args[0].args[0]  # unravel(ravel(x)) == x (a recorded dtype cast of the example does not change structure, shapes or values)
+        if f.op == "unravel_of" and len(args) == 1:
+            self.unravel_applied.append((f, args[0], site))  # census: a layout closure applied to a value that is not its own example
         if f.op == "unravel_of" and len(args) == 1 and not kwargs and isinstance(f.args[0], (list, tuple)) and f.args[0] and all(isinstance(x, T.Term) for x in f.args[0]):
             # un-ravelling into a flat list/tuple of leaves gives a container of the same length (entry i is opaque)
             whole = T.mk("call", (f, *args), kwargs, origin=site)
